@@ -235,10 +235,100 @@ ByzSpec GenerateTinySpec(uint64_t seed) {
   return s;
 }
 
+// Stratified instances: |index| enumerates the structure (up to four symbols,
+// at most one split event, two start-face bits, vertex count within two of the
+// estimate, with / without attribute connectivity data and decoders) in mixed
+// radix; only the seam bits are drawn at random (from |index| and its lap
+// number, so that later laps over the space see other seam patterns).
+ByzSpec GenerateEnumSpec(uint64_t index) {
+  ByzSpec s;
+  static const uint32_t all[] = {SYM_C, SYM_S, SYM_L, SYM_R, SYM_E};
+  // Structures per length n: 5^(n-1) symbol tails x (1 + sum over source of
+  // (source + 1) * 2) split choices x 4 start x 5 vertex x 2 attdata x 2 dec.
+  uint64_t sizes[5] = {0, 0, 0, 0, 0};
+  uint64_t total = 0;
+  for (int n = 1; n <= 4; ++n) {
+    uint64_t tails = 1;
+    for (int i = 1; i < n; ++i) tails *= 5;
+    uint64_t splits = 1;
+    for (int src = 0; src < n; ++src) splits += static_cast<uint64_t>(src + 1) * 2;
+    sizes[n] = tails * splits * 4 * 5 * 2 * 2;
+    total += sizes[n];
+  }
+  const uint64_t lap = index / total;
+  uint64_t k = index % total;
+  int n = 1;
+  while (k >= sizes[n]) {
+    k -= sizes[n];
+    ++n;
+  }
+  auto take = [&](uint64_t radix) {
+    const uint64_t v = k % radix;
+    k /= radix;
+    return v;
+  };
+  const int dec = static_cast<int>(take(2));
+  const int attdata = static_cast<int>(take(2));
+  const int vdelta = static_cast<int>(take(5)) - 2;
+  const int start = static_cast<int>(take(4));
+  uint64_t nsplit_choices = 1;
+  for (int src = 0; src < n; ++src) nsplit_choices += static_cast<uint64_t>(src + 1) * 2;
+  uint64_t sc = take(nsplit_choices);
+  if (sc > 0) {
+    --sc;
+    ByzSplit e;
+    for (int src = 0; src < n; ++src) {
+      const uint64_t here = static_cast<uint64_t>(src + 1) * 2;
+      if (sc < here) {
+        e.source = static_cast<uint32_t>(src);
+        e.split = static_cast<uint32_t>(sc / 2);
+        e.edge = static_cast<uint32_t>(sc % 2);
+        break;
+      }
+      sc -= here;
+    }
+    s.splits.push_back(e);
+  }
+  s.num_split_symbols = static_cast<uint32_t>(s.splits.size());
+  int verts = 3, merges = 0, ends = 1;
+  s.symbols.push_back(SYM_E);
+  for (int i = 1; i < n; ++i) {
+    const uint32_t sym = all[take(5)];
+    if (sym == SYM_E) {
+      ++ends;
+      verts += 3;
+    } else if (sym == SYM_R || sym == SYM_L) {
+      ++verts;
+    } else if (sym == SYM_S) {
+      ++merges;
+    }
+    s.symbols.push_back(sym);
+  }
+  int interior = 0;
+  for (int i = 0; i < 2; ++i) {
+    const int b = (start >> i) & 1;
+    s.start_faces.push_back(b);
+    if (b && i < ends) ++interior;
+  }
+  s.start_faces.push_back(0);
+  s.start_faces.push_back(0);
+  s.num_faces = static_cast<uint32_t>(n + interior);
+  int v = verts - merges + vdelta;
+  if (v < 3) v = 3;
+  s.num_vertices = static_cast<uint32_t>(v);
+  s.num_attribute_data = attdata;
+  s.att_decoders = dec ? (attdata ? 2 : 1) : 0;
+  Rng r(mix64(index, 0x5ea3 + lap));
+  for (uint32_t i = 0; i < s.num_faces * 3 + 8; ++i) s.seams.push_back(r.Chance(1, 3));
+  return s;
+}
+
 }  // namespace
 
 void ByzEdgebreakerBytes(uint64_t seed, int mode, std::vector<uint8_t> *out) {
-  const ByzSpec s = mode == 1 ? GenerateTinySpec(seed) : GenerateSpec(seed);
+  const ByzSpec s = mode == 2   ? GenerateEnumSpec(seed)
+                    : mode == 1 ? GenerateTinySpec(seed)
+                                : GenerateSpec(seed);
   draco::EncoderBuffer buf;
   WriteSpec(s, &buf);
   out->assign(reinterpret_cast<const uint8_t *>(buf.data()),
